@@ -1,7 +1,7 @@
 (** C20 — obligations over the facts regenerated from /repo (Gen/C20Facts.v). *)
 From Coq Require Import List Bool Arith ZArith String.
 Import ListNotations.
-Require Import Nib.C20.Model Nib.C20.Spec Nib.C20.Shape Nib.C20.Check Nib.C20.Proofs Nib.C20.ProofsDg Nib.C20.Property.
+Require Import Nib.C20.Model Nib.C20.Spec Nib.C20.Shape Nib.C20.Check Nib.C20.Proofs Nib.C20.ProofsDg Nib.C20.ProofsGen Nib.C20.Property.
 Require Import Nib.Gen.C20Facts.
 
 (** Every persistent collection declared in the seven keepers is carried by a GenesisState field that
@@ -30,7 +30,10 @@ Print Assumptions C20_holds_for_current_tree.
 Theorem C20_second_export_for_current_tree : forall F env h t s, wf_app F env s ->
   exists g s' g', export_app env s = Some g /\ init_app current_cfg F env (tf_bankmd (a_tf s)) h t g = Some s' /\
                   export_app env s' = Some g' /\ gen_equiv h g g'.
-Proof. intros F env h t s. exact (C20_export_roundtrip current_cfg F env h t s). Qed.
+Proof.
+  intros F env h t s. apply (C20_export_roundtrip current_cfg F env h t s).
+  exact (proj2 (proj2 (cfg_ok_parts current_cfg C20_current_cfg_ok))).
+Qed.
 Print Assumptions C20_second_export_for_current_tree.
 
 (** x/devgas for the current tree (the rule of MsgUpdateFeeShare is regenerated from the handler source): every
@@ -44,3 +47,11 @@ Proof.
   rewrite E. exact C20_devgas_history_from_genesis.
 Qed.
 Print Assumptions C20_devgas_histories_for_current_tree.
+
+(** any number of generations, for the current tree (EpochInfo.Validate and the other facts regenerated) *)
+Theorem C20_iterated_roundtrip_for_current_tree : forall F env h t gens s, wf_app F env s ->
+  Forall (fun ht => (0 <= fst ht)%Z) ((h, t) :: gens) ->
+  exists g s', export_app env s = Some g /\ regen current_cfg F env ((h, t) :: gens) s = Some s' /\ wf_app F env s' /\
+               export_app env s' = Some (rebase_gen (fst (last gens (h, t))) g).
+Proof. intros F env h t gens s. exact (C20_iterated_roundtrip current_cfg F env h t gens s C20_current_cfg_ok). Qed.
+Print Assumptions C20_iterated_roundtrip_for_current_tree.
